@@ -1546,12 +1546,15 @@ impl<'a, T, L: Layout> TensorBase<CowData<'a, T>, L> {
         L: Clone + FromShape,
         T: Clone,
     {
+        // `CowData` is immutable storage, so the layout may be a broadcasting
+        // one. An owned tensor is mutable and must not reuse such a layout.
+        let may_overlap = may_have_internal_overlap(self.layout.shape(), self.layout.strides());
         match self.data {
-            CowData::Owned(data) => TensorBase {
+            CowData::Owned(data) if !may_overlap => TensorBase {
                 data,
                 layout: self.layout,
             },
-            CowData::Borrowed(_) => {
+            _ => {
                 let data = self.to_vec_in(alloc);
                 let layout = L::from_shape(self.shape());
                 TensorBase { data, layout }
